@@ -10,6 +10,9 @@ class Unsupported(Exception):
 
 CMP = {'<': lambda a, b: a < b, '<=': lambda a, b: a <= b, '>': lambda a, b: a > b, '>=': lambda a, b: a >= b, '==': lambda a, b: a == b, '!=': lambda a, b: a != b}
 def _div(a, b):
+    if isinstance(a, int) and isinstance(b, int) and not isinstance(a, bool) and not isinstance(b, bool) and b != 0:
+        q = abs(a) // abs(b)            # both operands integers: C++ integer division (truncation toward zero)
+        return q if (a >= 0) == (b > 0) else -q
     a, b = float(a), float(b)
     if b == 0.0:                      # IEEE-754: x/0 = +-inf, 0/0 = nan
         if a == 0.0 or a != a:
@@ -92,8 +95,10 @@ class Step:
             return bool(self.ev(t[1], env)) or bool(self.ev(t[2], env))
         if op in ('!', 'u!') and len(t) == 2:
             return not self.ev(t[1], env)
-        if op == 'u-' and len(t) == 2:
+        if op in ('u-', '-') and len(t) == 2:
             return -self.ev(t[1], env)
+        if op in ('u+', '+') and len(t) == 2:
+            return self.ev(t[1], env)
         if op == '?' and len(t) == 4:
             return self.ev(t[2], env) if self.ev(t[1], env) else self.ev(t[3], env)
         if op in ABS and len(t) == 2:
